@@ -49,13 +49,13 @@ def destLabel (d : Bytes) : String :=
         else match fileName d with
           | none => "no-filename"
           | some _ =>
-            match addData d with
+            match addDataRaw d with
             | .ok (_, dir, _) => if dir == [47] then "ok-root" else "ok-sub"
             | _ => "?"
     style ++ ":" ++ out ++ (if messy then ":messy" else "") ++ (if d.contains 0 then ":nul" else "")
 
 def handleDest (d : Bytes) (impl : String) : String :=
-  let m := match addData d with
+  let m := match addDataRaw d with
     | .ok (_, dir, base) =>
       let dir := cstr dir
       let base := cstr base
